@@ -112,7 +112,7 @@ partial def tnOfJson (j : J) : TN :=
 
 def extArgOfJson (j : J) : ExtArg := { name := j.strD "name", ty := tnOfJson (j.getD "ty") }
 def extFieldOfJson (j : J) : ExtField :=
-  { name := j.strD "name", ty := tnOfJson (j.getD "ty"), args := (j.arrD "args").map extArgOfJson }
+  { name := j.strD "name", ty := tnOfJson (j.getD "ty"), args := (j.arrD "args").map extArgOfJson, res := optNat j "res" }
 
 def objEntries (j : J) (k : String) : List (String × J) := ((j.get? k).bind J.asObj?).getD []
 
